@@ -13,7 +13,7 @@ claimed = {
    "Unbounded deductive proof per operation: each of the 31 controller-addressed API operations is verified with sendto[T] and the reflective codec (Marshal/marshal) executed on their real SSA bodies for the concrete request struct; the postcondition `wire` fixes all 64 request bytes as a function of the arguments (protocol table in tools/gen_op_contracts.py), `once` that exactly one request reaches the driver. Field encoders (Date, DateTime, HHmm, PIN, SerialNumber) and bcd.Encode are verified against their own functional contracts for all values.",
    BASE_NOTE + "; reflect model for concrete message structs; driver interface contract assumed for the transport; GetDevices is decided under C11"),
  "C02": ("proof", "DESIGN.md section 4 C02",
-   "Unbounded deductive proof per operation: postcondition `result` states every returned field as a function of the 60 symbolic payload bytes of the reply, with the sentinels of the statement; `accept` states the domain conditions (boolean bytes, event type 0xff, echoed card / profile id). The nine wire decoders of package types and bcd.Decode are verified against contracts under which an out-of-domain byte is an error or the zero value.",
+   "Unbounded deductive proof per operation: postcondition `result` states every returned field as a function of the 60 symbolic payload bytes of the reply, with the sentinels of the statement; `accept` states the domain conditions (boolean bytes, event type 0xff, echoed card / profile id) under which a reply may be turned into a result, and `complete` that a reply which meets them is never turned into an error (so a 'not found' sentinel reply comes back as no value, not as a failure). The nine wire decoders of package types and bcd.Decode are verified against contracts under which an out-of-domain byte is an error or the zero value.",
    BASE_NOTE + "; time.ParseInLocation model (spec/time.spec) for the date decoders; some result fields (dates inside cards/profiles/events) are covered through the decoder contracts, see evidence not_decided"),
  "C03": ("proof", "DESIGN.md section 4 C03",
    "Unbounded deductive proof: postcondition `accept` of every operation (a result is reported only for a 64-byte reply with protocol id 0x17 (0x19 for function 0x20), the operation's function code and serial S), the broadcast acceptance callback udpBroadcastTo$1 accepts exactly (len 64, serial S), and the reply clauses of the routing closure.",
@@ -22,7 +22,7 @@ claimed = {
    "Unbounded deductive proof: postcondition `route` of every operation and of the routing closure sendto$1: exactly one driver call, SendUDP/SendTCP to the configured address:port when it is usable, BroadcastTo the configured broadcast address otherwise (255.255.255.255:60000 by default).",
    BASE_NOTE + "; net/netip model; IP-level fan-out is outside function contracts"),
  "C07": ("proof", "DESIGN.md section 4 C07",
-   "Unbounded deductive proof: for every operation `reject` (INVALID arguments => error and the ghost transport trace unchanged) and `once` (every other argument tuple sends exactly one request); isWiegand26 and isCardNumberValid against the arithmetic Wiegand-26 predicate for all 2^32 card numbers and all format lists (loop invariant).",
+   "Unbounded deductive proof: for every operation `reject` (INVALID arguments => error and the ghost transport trace unchanged) and `once` (every other argument tuple sends exactly one request); isWiegand26 and isCardNumberValid against the arithmetic Wiegand-26 predicate for all 2^32 card numbers and all format lists (loop invariant); the HH:mm order used by the time-profile validation (HHmm.Before / After) against the lexicographic order, 24:00 included.",
    BASE_NOTE + "; fmt.Sprintf(%08v)/strconv.Atoi digit model"),
  "C09": ("other", "DESIGN.md section 4 C09",
    "Partially decided (level 'other'): deductive proof of the socket / deadline / lock typestate of all four driver send paths - ut0311.BroadcastTo, SendUDP, SendTCP and the discovery broadcast ut0311.Broadcast - against assumed contracts of package net on a ghost socket state: exactly one socket per call, closed on every return path; every blocking write/read happens under a deadline (discovery: the write under a write deadline, the collector's reads bounded by the Close on return) and the dial carries one; the process-wide lock is taken iff the bind port is fixed and released on every path; the receive loops exit only with an accepted datagram or a read error and have a variant (a round that neither returns nor consumes a datagram fails it); discovery starts exactly one collector goroutine (none for set-address) and holds the caller for exactly the configured timeout (ghost clock: time.Sleep or a receive from time.After); the collector is a goroutine body that has to end with its call: loop variant, and no channel operation that can block for ever (obligations of class `block`). The wall-clock bound as such, goroutine counts over a history of calls and ut0311.Listen's goroutines are NOT decided.",
@@ -41,14 +41,14 @@ claimed = {
    BASE_NOTE + "; time model (civil fields of an instant in a location, uninterpreted zone offset)"),
 
  "C04": ("proof", "DESIGN.md section 4 C04",
-   "Unbounded deductive proof of the absence of run-time panics: every index, slice-bounds, nil-dereference, nil-map write, type-assertion, division, explicit-panic and library-precondition obligation of (a) the 31 API operations with sendto and the reflective codec inlined (reply bytes and their length symbolic), (b) Unmarshal of an arbitrary byte string into each of the 65 message types (lemmaDecode<T>), (c) every other source function of the five packages in a zero-annotation sweep (String/MarshalJSON methods included) - except the functions listed with reasons under sweep_not_covered in the evidence (goroutines, real sockets, reflection on unknown types).",
+   "Unbounded deductive proof of the absence of run-time panics: every index, slice-bounds, nil-dereference, nil-map write, type-assertion, division, explicit-panic and library-precondition obligation of (a) the 31 API operations with sendto and the reflective codec inlined (reply bytes and their length symbolic), (b) Unmarshal of an arbitrary byte string into each of the 65 message types (lemmaDecode<T>), (c) every other source function of the five packages in a zero-annotation sweep (String/MarshalJSON methods included) - the dispatchers, GetDevices, the driver's socket methods and the JSON decoders of Weekdays / Segments (nil target maps) included - except the functions listed with reasons under sweep_not_covered in the evidence (the reflective codec on a statically unknown type - it is executed in place for every concrete type -, a few string tables of request-only enums). New code: see DESIGN.md section 4 C04 (sweep baseline).",
    BASE_NOTE + "; a method is called on a non-nil receiver; library functions do not panic when their assumed preconditions hold; Must* constructors panic by design"),
  "C05": ("proof", "DESIGN.md section 4 C05",
    "Unbounded deductive proof per message type: for each of the 65 message structs T the lemma function lemmaRoundTrip<T>(v) = Unmarshal(Marshal(v)) is verified with the reflective codec executed on its real body - decoding succeeds for every in-domain v and returns its integer, boolean, PIN, HH:mm, IPv4, address:port, MAC and version fields unchanged, date/time fields are written and read at the same offset in the same BCD form; lemmaDecode<T> shows that only 64 bytes with T's protocol id and function code are accepted; the two dispatchers UnmarshalRequest / UnmarshalResponse are verified by a case split over the literal keys of their tables, the decoder call of each case summarised by the contract of lemmaDecode<T> (checked to be literally that call on a zero T): 64 bytes, protocol id 0x17, the type whose own MsgType tag carries the function code and only that type, unknown codes rejected; the per-type round trips of Date, DateTime, HHmm, PIN, SerialNumber, Version are lemma functions over the codec contracts with an uninterpreted zone offset (every time zone; zero values included).",
    BASE_NOTE + "; independence from non-field bytes is not stated as a separate lemma (see evidence not_decided)"),
  "C13": ("proof", "DESIGN.md section 4 C13",
    "Unbounded deductive proof relative to a model of package time in which the zone offset is an uninterpreted function (all zones at once): every date producer (ToDate, ParseDate, the wire decoders of Date, DateTime, SystemDate, SystemTime) has a `civil` postcondition - if the civil day / date-time exists in the process-local zone the result has exactly the requested fields - and the encoders write exactly the civil fields. On the current tree the date clauses are provable only under the additional hypothesis that local midnight exists on that day: the missing-midnight case is a genuine defect recorded as four known findings (known_findings.txt), each replayed on the real code.",
-   BASE_NOTE + "; the time model (spec/time.spec: time.Date algorithm abs = C - off(C - off(C)), documented guarantee when the civil time exists, calendar bijection) is assumed; the status recombination closures are covered through the decoder contracts only"),
+   BASE_NOTE + "; the time model (spec/time.spec: time.Date algorithm abs = C - off(C - off(C)), documented guarantee when the civil time exists, calendar bijection) is assumed and conformance-tested (bin/timeconf, thorough tier); the closures that recombine the system date and time of a status (GetStatus$1, Listen$1) are under contract"),
  "C14": ("other", "DESIGN.md section 4 C14",
    "Partially decided (level 'other'): deductive proof for the leaf types whose parser is repository code over a string - HH:mm (String / HHmmFromString / JSON: accepted exactly in 00:00..24:00 with minutes <= 59, everything else of that form rejected, decode(encode(v)) == v), door control state JSON (exactly the three names), Date JSON and text (blank <-> zero, impossible dates rejected, civil value kept when the day exists in the zone), DateTime JSON (decode(encode(v)) is the same instant to the second for every v held in the process zone or in UTC, in every process zone - over an assumed model of zone designations in time.Format / time.Parse, bounded conformance test in the thorough tier), Weekdays and Segments JSON decoding into a nil map (no panic, a map is created), and the text forms of the four address types (with C15). Card, TimeProfile, Task (values), Version, MacAddress, TaskType by name, CardFormat and PIN are NOT decided: their decoders delegate to encoding/json's reflective decoding, fmt.Sscanf, net.ParseMAC or variable-width decimal text.",
    BASE_NOTE + "; encoding/json on strings is an abstract quoting; zone designations: spec/time.spec; two known findings (dates whose local midnight does not exist, same defect as C13); two defects fixed (DateTime JSON in zones with numeric designations, nil-map decoders)"),
@@ -57,7 +57,7 @@ claimed = {
    BASE_NOTE + "; assumed: what the two unanchored regular expressions and netip.ParseAddrPort/ParseAddr do on strings of the exact dotted-quad[:port] form and on strings without a dotted quad (axioms in spec/addr.spec); strings with text around a dotted quad are not decided"),
  "C17": ("proof", "DESIGN.md section 4 C17",
    "Unbounded deductive proof on a heap model with allocation freshness: frame obligations of every API operation (no write to memory that existed at entry), Device.Clone / Card.Clone (equal value, fresh slices/maps), NewUHPPOTE (every device stored as a clone in a fresh map), and `noalias` clauses: decoded IPv4 / MAC slices share no memory with the message buffer (decode lemmas of the message types and of the C18 layout family); result maps of GetCard*/GetTimeProfile are fresh.",
-   BASE_NOTE + "; DeviceList is not decided (range over a map)"),
+   BASE_NOTE + "; DeviceList: every listed device is a clone (map iteration modelled with an invariant)"),
  "C18": ("other", "DESIGN.md section 4 C18",
    "Deductive proof per layout over a FINITE FAMILY of layouts (bounded in the layout quantifier, unbounded in the field values): for 9 message layouts that are not shipped messages and together cover every supported field kind, fields ending on byte 63, pointer variants, one level of embedding and decimal/hex/upper-case value tags, Unmarshal(Marshal(v)) is verified with the reflective codec executed on its real body - exact bytes at each offset and zero elsewhere, decode(encode(v)) == v, tags emitted and enforced, no shared memory with the buffer, no panic. The generic statement for all layouts of the tag grammar is not discharged (reflection on a statically unknown type is outside the engine's model); that is why the level is 'other', not 'proof'.",
    BASE_NOTE + "; bounded: the family of layouts in encoding/UTO311-L0x/lemmas_verif.go"),
